@@ -35,6 +35,16 @@ fn start_palette(k: usize) -> Palette {
     match k {
         0 => Palette::new(),
         1 => Palette::dos_default(),
+        3 => {
+            // colours that carry names (as after a GPL / ICE import)
+            let mut p = Palette::new();
+            for (i, c) in [BLACK, DUP, NEW2, (0xFF, 0xFF, 0xFF)].iter().enumerate() {
+                let mut col = Color::new(c.0, c.1, c.2);
+                col.name = Some(format!("named {i}"));
+                p.push(col);
+            }
+            p
+        }
         _ => {
             let mut p = Palette::dos_default();
             for i in 0..284u32 {
@@ -133,7 +143,13 @@ fn rel(i: i32, len: usize) -> u32 {
 
 fn parser_tokens() -> Vec<(Vec<u8>, Option<Rgb>, bool)> {
     // (bytes, colour the foreground (true) / background (false) must resolve to afterwards, is_foreground)
+    // OSC 4 tokens redefine a palette slot (no colour expectation); slots 16.. are where inserted colours land
     let mut v: Vec<(Vec<u8>, Option<Rgb>, bool)> = Vec::new();
+    for slot in [16u32, 17, 1] {
+        for c in [(9u8, 8u8, 7u8), NEW1] {
+            v.push((format!("\x1b]4;{slot};rgb:{:02x}/{:02x}/{:02x}\x1b\\", c.0, c.1, c.2).into_bytes(), None, true));
+        }
+    }
     for c in [NEW1, NEW2, BLACK, DUP, (255, 255, 255)] {
         v.push((format!("\x1b[38;2;{};{};{}m", c.0, c.1, c.2).into_bytes(), Some(c), true));
         v.push((format!("\x1b[48;2;{};{};{}m", c.0, c.1, c.2).into_bytes(), Some(c), false));
@@ -155,6 +171,7 @@ fn run_parser_history(toks: &[usize], ctx: &mut Ctx) {
     let mut caret = Caret::default();
     let mut parser = ansi::Parser::default();
     let mut printed: Vec<(i32, Rgb, Rgb)> = Vec::new(); // x, fg rgb, bg rgb at print time
+    let mut redefined: Vec<u32> = Vec::new(); // slots explicitly set through OSC 4 (cells using them may change)
     ctx.count("evaluations", 1);
     for (step, &t) in toks.iter().enumerate() {
         let (bytes, want, is_fg) = &all[t];
@@ -166,6 +183,13 @@ fn run_parser_history(toks: &[usize], ctx: &mut Ctx) {
             }
         }
         let a = caret.get_attribute();
+        if want.is_none() {
+            let txt = String::from_utf8_lossy(bytes).to_string();
+            if let Some(slot) = txt.split(';').nth(1).and_then(|x| x.parse::<u32>().ok()) {
+                redefined.push(slot);
+            }
+            continue;
+        }
         let got = if *is_fg { buf.palette.get_rgb(a.get_foreground()) } else { buf.palette.get_rgb(a.get_background()) };
         if Some(got) != *want {
             ctx.violation("diff:palette:parser-colour-does-not-resolve", json!({"step": step, "sequence": String::from_utf8_lossy(bytes), "got": got, "want": want}));
@@ -184,7 +208,8 @@ fn run_parser_history(toks: &[usize], ctx: &mut Ctx) {
         let now_bg = buf.palette.get_rgb(ch.attribute.get_background());
         f.u32(ch.attribute.get_foreground());
         f.u32(ch.attribute.get_background());
-        if now_fg != fg || now_bg != bg {
+        let touched = redefined.contains(&ch.attribute.get_foreground()) || redefined.contains(&ch.attribute.get_background());
+        if !touched && (now_fg != fg || now_bg != bg) {
             ctx.violation("diff:palette:earlier-cell-changed-colour", json!({"x": x, "was": [fg, bg], "now": [now_fg, now_bg]}));
         }
     }
@@ -268,7 +293,7 @@ fn build(tier: &str) -> C16 {
     let o = ops();
     let mut cases = Vec::new();
     let depth = if thorough { 4 } else { 3 };
-    for start in 0..3 {
+    for start in 0..4 {
         let mut stack: Vec<Vec<Op>> = vec![vec![]];
         for _ in 0..depth {
             let mut next = Vec::new();
@@ -286,7 +311,7 @@ fn build(tier: &str) -> C16 {
         }
     }
     let nt = parser_tokens().len();
-    let pdepth = if thorough { 3 } else { 2 };
+    let pdepth = if thorough { 4 } else { 3 };
     let mut stack: Vec<Vec<usize>> = vec![vec![]];
     for _ in 0..pdepth {
         let mut next = Vec::new();
@@ -327,7 +352,7 @@ impl Engine for C16 {
     }
     fn describe(&self, idx: u64) -> Value {
         let d = match &self.cases[idx as usize] {
-            Case::Hist(s, h) => json!({"kind": "palette history", "start": (["empty", "dos16", "300 colours with a duplicate"][*s]), "ops": h.iter().map(|o| format!("{o:?}")).collect::<Vec<_>>()}),
+            Case::Hist(s, h) => json!({"kind": "palette history", "start": (["empty", "dos16", "300 colours with a duplicate", "4 named colours"][*s]), "ops": h.iter().map(|o| format!("{o:?}")).collect::<Vec<_>>()}),
             Case::ParserHist(t) => {
                 let all = parser_tokens();
                 json!({"kind": "parser colour history", "sequences": t.iter().map(|i| String::from_utf8_lossy(&all[*i].0).replace('\x1b', "ESC")).collect::<Vec<_>>()})
